@@ -416,7 +416,7 @@ PROPS["C19"] = dict(
                "refused for them; reallocating operations are refused for stack and static Strings and Tuples.",
     quick=[("asan", 16, 30), ("plain", 8, 30)],
     thorough=[("asan", 16, 1500), ("plain", 16, 4000)],
-    floors={"quick": {"objects_observed": 5000, "refusals_checked": 2000, "neighbour_checks": 100,
+    floors={"quick": {"sized_map_checks": 2000, "sized_sequence_checks": 1000, "sized_maps_value_larger_than_key": 100, "sized_maps_key_larger_than_value": 100, "objects_observed": 5000, "refusals_checked": 2000, "neighbour_checks": 100,
                       "heap_objects_released_once": 50, "empty_registry_thread_runs": 20}},
     rule="evaluation = one observation or one refused operation; the enumeration is run completely at sizes "
          "1,2,3,7,64 by shard 0 and at random sizes by the generated cases; distinct = container size; non-trivial = "
